@@ -2,8 +2,9 @@ package main
 
 import (
 	"fmt"
-	"os"
 	"go/types"
+	"os"
+	"sort"
 	"strings"
 
 	"golang.org/x/tools/go/ssa"
@@ -222,6 +223,25 @@ func (x *Exec) intrinsic(fr *Frame, st *State, ins ssa.Instruction, cc *ssa.Call
 		} else {
 			fr.regs[res] = add(cur, intLit(1))
 		}
+	case "vs_pos":
+		// vs_pos(n): byte offset reached by the n-th range-over-string statement of the enclosing function
+		rf := x.realFrame(fr)
+		if rf == nil {
+			panic(engErr("vs_pos outside a function body"))
+		}
+		nC, ok := cc.Args[0].(*ssa.Const)
+		if !ok {
+			panic(engErr("vs_pos: argument must be a constant"))
+		}
+		rng := nthStringRange(rf.fn, int(nC.Int64()))
+		if rng == nil {
+			panic(engErr("vs_pos: %s has no range-over-string statement %d", rf.fn.Name(), nC.Int64()))
+		}
+		if cur, ok := st.iters[cellKey2{rf.id, rng}]; ok {
+			fr.regs[res] = cur
+		} else {
+			fr.regs[res] = intLit(0)
+		}
 	case "vs_visited":
 		// vs_visited(n, k): key k was already produced by the n-th range statement of the enclosing function
 		rf := x.realFrame(fr)
@@ -252,6 +272,24 @@ func (x *Exec) intrinsic(fr *Frame, st *State, ins ssa.Instruction, cc *ssa.Call
 	default:
 		panic(engErr("intrinsic %s not implemented", name))
 	}
+}
+
+func nthStringRange(fn *ssa.Function, n int) *ssa.Range {
+	var rs []*ssa.Range
+	for _, b := range fn.Blocks {
+		for _, ins := range b.Instrs {
+			if r, ok := ins.(*ssa.Range); ok {
+				if _, isStr := underlying(r.X.Type()).(*types.Basic); isStr {
+					rs = append(rs, r)
+				}
+			}
+		}
+	}
+	sort.Slice(rs, func(i, j int) bool { return rs[i].Pos() < rs[j].Pos() })
+	if n >= 1 && n <= len(rs) {
+		return rs[n-1]
+	}
+	return nil
 }
 
 func nthRange(fn *ssa.Function, n int) *ssa.Range {
